@@ -3,7 +3,8 @@
 HERE="$(cd "$(dirname "$0")" && pwd)"
 cd "$HERE" || exit 1
 mkdir -p .work evidence replays coq/Gen
-find coq -name '*.vo' -o -name '*.vok' -o -name '*.vos' -o -name '*.glob' -o -name '.*.aux' | xargs rm -f
+# a fresh restore has no build output (it is git-ignored); SETUP_CLEAN=1 forces a clean rebuild
+if [ -n "$SETUP_CLEAN" ]; then find coq -name '*.vo' -o -name '*.vok' -o -name '*.vos' -o -name '*.glob' -o -name '.*.aux' | xargs rm -f; fi
 export VERIF_REPO="${VERIF_REPO:-/repo}" PYTHONPATH="${VERIF_REPO:-/repo}" PYTHONHASHSEED=0 PYTHONDONTWRITEBYTECODE=1
 mkdir -p .work/acsdata; export ACSDATA="$HERE/.work/acsdata"
 /venv/bin/python - <<'PY'
@@ -11,16 +12,20 @@ import sys, os, importlib, glob
 sys.path.insert(0, os.getcwd())
 from vlib import core
 core.use_repo()
-# regenerate Gen tables of every property that has a translator
-for p in sorted(glob.glob('props/c*.py')):
-    m = importlib.import_module('props.' + os.path.basename(p)[:-3])
-    g = getattr(m, 'gen', None)
-    if g:
-        try:
-            g(core.Ctx(m, 'quick', 0))
-        except Exception as ex:
-            print('gen failed for', p, ex)
-rc, out = core.coq_make(['all'], timeout=3400)
+# regenerate the Gen tables and build the Coq targets of every claimed property
+claimed = open('tools/claimed.txt').read().split()
+targets = []
+for pid in claimed:
+    m = importlib.import_module('props.' + pid.lower())
+    ctx = core.Ctx(m, 'quick', 0, core.load_parts(pid.lower()))
+    ctx.run_gen()
+    if ctx.broken:
+        print('gen problems for', pid, ctx.broken)
+    for t in ctx.coq_targets():
+        if t not in targets:
+            targets.append(t)
+print('targets:', ' '.join(targets))
+rc, out = core.coq_make(['-k'] + targets, timeout=3400)
 print(out[-3000:])
 sys.exit(rc)
 PY
